@@ -699,7 +699,7 @@ pub fn eval_fcase(c: &FCase, prop: &str) -> Result<FInfo, Verdict> {
                         }
                     }
                 }
-                Inj::Init => {}
+                Inj::Init | Inj::QSource(..) => {}
             }
         }
         let mut e = new_exp(&b);
@@ -714,7 +714,7 @@ pub fn eval_fcase(c: &FCase, prop: &str) -> Result<FInfo, Verdict> {
                         }
                     }
                 }
-                Inj::Init => {}
+                Inj::Init | Inj::QSource(..) => {}
             }
         }
         if e.too_big {
